@@ -237,7 +237,8 @@ func (g *c11Gen) valueTerm(depth int) c11Term {
 }
 
 // one table level: the objects written inside the scope cur
-func (g *c11Gen) level(cur []string, depth int, late bool, n int) []*c11Node {
+// late / off: see D1b in AmlNs.tla (directive that the parser cannot merge in its first pass / place that is not final then)
+func (g *c11Gen) level(cur []string, depth int, late, off bool, n int) []*c11Node {
 	var out []*c11Node
 	for i := 0; i < n && g.budget > 0; i++ {
 		g.budget--
@@ -252,24 +253,24 @@ func (g *c11Gen) level(cur []string, depth int, late bool, n int) []*c11Node {
 			case "PowerRes":
 				t.Args = []c11Term{{T: "byte", N: []int{g.rng.Intn(6)}}, {T: "word", N: []int{g.rng.Intn(65536)}}}
 			}
-			g.declared(cur, p, late)
+			g.declared(cur, p, off)
 			g.scopes = append(g.scopes, c11Scope{path: p, object: true, table: g.table})
 			nd := &c11Node{tok: t, blk: true}
-			nd.kids = g.level(p, depth+1, late, g.rng.Intn(6))
+			nd.kids = g.level(p, depth+1, late, off || g.displaced[c11Key(p)], g.rng.Intn(6))
 			out = append(out, nd)
 		case k < 28 && depth < g.maxDepth: // Scope directive
 			f, p := g.scopeForm(cur)
 			if f == nil {
 				continue
 			}
-			l := late
+			l := late || (!f.Abs && off)
 			for j := 1; j <= len(p); j++ {
 				if g.displaced[c11Key(p[:j])] {
 					l = true
 				}
 			}
 			nd := &c11Node{tok: c11Tok{K: "scope", F: f, W: g.width()}, blk: true}
-			nd.kids = g.level(p, depth+1, l, g.rng.Intn(6))
+			nd.kids = g.level(p, depth+1, l, l, g.rng.Intn(6))
 			out = append(out, nd)
 		case k < 42: // method
 			f, p := g.declForm(cur, late)
@@ -278,18 +279,18 @@ func (g *c11Gen) level(cur []string, depth int, late bool, n int) []*c11Node {
 				argc = g.rng.Intn(4)
 			}
 			flags := argc | g.rng.Intn(2)<<3 | g.rng.Intn(16)<<4
-			g.declared(cur, p, late)
+			g.declared(cur, p, off)
 			nd := &c11Node{tok: c11Tok{K: "method", F: f, W: g.width(), Flags: flags}, blk: true}
 			g.methods = append(g.methods, &c11Method{path: p, argc: argc, table: g.table, node: nd})
 			out = append(out, nd)
 		case k < 62: // Name
 			f, p := g.declForm(cur, late)
-			g.declared(cur, p, late)
+			g.declared(cur, p, off)
 			g.names = append(g.names, c11Scope{path: p, table: g.table})
 			out = append(out, &c11Node{tok: c11Tok{K: "decl", Kind: "Name", F: f, Args: []c11Term{g.valueTerm(0)}}})
 		case k < 76: // OpRegion + Field
 			f, p := g.declForm(cur, late)
-			g.declared(cur, p, late)
+			g.declared(cur, p, off)
 			g.regions = append(g.regions, c11Scope{path: p, table: g.table})
 			off := c11Term{T: "dword", N: []int{g.rng.Intn(65536), g.rng.Intn(65536)}}
 			if g.rng.Intn(2) == 0 {
@@ -307,19 +308,19 @@ func (g *c11Gen) level(cur []string, depth int, late bool, n int) []*c11Node {
 			}
 		case k < 91:
 			f, p := g.declForm(cur, late)
-			g.declared(cur, p, late)
+			g.declared(cur, p, off)
 			out = append(out, &c11Node{tok: c11Tok{K: "decl", Kind: "Mutex", F: f, Args: []c11Term{{T: "byte", N: []int{g.rng.Intn(16)}}}}})
 		default:
 			f, p := g.declForm(cur, late)
-			g.declared(cur, p, late)
+			g.declared(cur, p, off)
 			out = append(out, &c11Node{tok: c11Tok{K: "decl", Kind: "Event", F: f}})
 		}
 	}
 	return out
 }
 
-func (g *c11Gen) declared(cur, p []string, late bool) {
-	if late || c11Key(p[:len(p)-1]) != c11Key(cur) {
+func (g *c11Gen) declared(cur, p []string, off bool) {
+	if off || c11Key(p[:len(p)-1]) != c11Key(cur) {
 		g.displaced[c11Key(p)] = true
 	}
 }
@@ -481,7 +482,7 @@ func c11RandomProgram(seed int64, open map[string]bool) []c11Tok {
 		g.budget = total / ntab
 		var top []*c11Node
 		for g.budget > 0 {
-			top = append(top, g.level(nil, 0, false, 2+g.rng.Intn(8))...)
+			top = append(top, g.level(nil, 0, false, false, 2+g.rng.Intn(8))...)
 		}
 		tables = append(tables, top)
 	}
@@ -496,8 +497,11 @@ func c11RandomProgram(seed int64, open map[string]bool) []c11Tok {
 	return toks
 }
 
-// TestVerifC11Random: C11_N programs from VERIF_SEED, results to C11_OUT.
+// TestVerifC11Random: C11_N programs from VERIF_SEED, results to C11_RAND_OUT.
 func TestVerifC11Random(t *testing.T) {
+	if os.Getenv("C11_RAND_OUT") == "" {
+		t.Skip("no C11_RAND_OUT")
+	}
 	seed, _ := strconv.ParseInt(os.Getenv("VERIF_SEED"), 10, 64)
 	n, _ := strconv.Atoi(os.Getenv("C11_N"))
 	open := map[string]bool{}
@@ -513,11 +517,11 @@ func TestVerifC11Random(t *testing.T) {
 		if err != nil {
 			t.Fatal(err)
 		}
-		p := c11Prog{ID: i + 1, Raw: raw}
+		p := c11Prog{ID: 1000001 + i, Raw: raw}
 		if err := json.Unmarshal(raw, &p.Toks); err != nil { // the same decoding path as TLC-made programs
 			t.Fatal(fmt.Errorf("generator wrote tokens it cannot read back: %v", err))
 		}
 		progs = append(progs, p)
 	}
-	c11RunParallel(t, progs, os.Getenv("C11_OUT"))
+	c11RunParallel(t, progs, os.Getenv("C11_RAND_OUT"))
 }
